@@ -765,6 +765,11 @@ orc_program_append_ds (OrcProgram *program, const char *name, int arg0,
 {
   OrcInstruction *insn;
 
+  if (program->n_insns >= ORC_N_INSNS) {
+    orc_program_set_error (program, "too many instructions");
+    return;
+  }
+
   insn = program->insns + program->n_insns;
 
   insn->opcode = orc_opcode_find_by_name (name);
@@ -795,6 +800,11 @@ orc_program_append (OrcProgram *program, const char *name, int arg0,
     int arg1, int arg2)
 {
   OrcInstruction *insn;
+
+  if (program->n_insns >= ORC_N_INSNS) {
+    orc_program_set_error (program, "too many instructions");
+    return;
+  }
 
   insn = program->insns + program->n_insns;
 
@@ -830,6 +840,11 @@ orc_program_append_2 (OrcProgram *program, const char *name, unsigned int flags,
   OrcInstruction *insn;
   int args[4];
   int i;
+
+  if (program->n_insns >= ORC_N_INSNS) {
+    orc_program_set_error (program, "too many instructions");
+    return;
+  }
 
   insn = program->insns + program->n_insns;
 
@@ -986,6 +1001,11 @@ orc_program_append_str_n (OrcProgram *program, const char *name,
   int i;
   int expected_args = 0;
 
+  if (program->n_insns >= ORC_N_INSNS) {
+    orc_program_set_error (program, "too many instructions");
+    return 0;
+  }
+
   insn = program->insns + program->n_insns;
 
   insn->line = program->current_line;
@@ -1064,6 +1084,11 @@ orc_program_append_ds_str (OrcProgram *program, const char *name,
 {
   OrcInstruction *insn;
 
+  if (program->n_insns >= ORC_N_INSNS) {
+    orc_program_set_error (program, "too many instructions");
+    return;
+  }
+
   insn = program->insns + program->n_insns;
 
   insn->opcode = orc_opcode_find_by_name (name);
@@ -1083,6 +1108,11 @@ orc_program_append_dds_str (OrcProgram *program, const char *name,
     const char *arg1, const char *arg2, const char *arg3)
 {
   OrcInstruction *insn;
+
+  if (program->n_insns >= ORC_N_INSNS) {
+    orc_program_set_error (program, "too many instructions");
+    return;
+  }
 
   insn = program->insns + program->n_insns;
 
